@@ -254,6 +254,13 @@ class FuncAnalysis:
             v = self.ev(s.value, env)
             for t in s.targets:
                 self.assign(t, v, env, s.value)
+            # k = TABLE.get(p): remembered, so that a later `k is None` test says whether p is one of the table's (string) keys
+            c_ = s.value
+            if len(s.targets) == 1 and isinstance(s.targets[0], ast.Name) and isinstance(c_, ast.Call) and isinstance(c_.func, ast.Attribute) \
+                    and c_.func.attr == "get" and len(c_.args) == 1 and isinstance(c_.args[0], ast.Name) and not c_.keywords:
+                keys = self.string_members(c_.func.value)
+                if keys is not None:
+                    self.__dict__.setdefault("getmap", {})[s.targets[0].id] = (c_.args[0].id, keys)
         elif isinstance(s, ast.AnnAssign):
             if s.value is not None:
                 self.assign(s.target, self.ev(s.value, env), env, s.value)
@@ -477,10 +484,53 @@ class FuncAnalysis:
         elif isinstance(target, ast.Starred):
             self.assign(target.value, TOP, env, src)
 
+    def string_members(self, node):
+        """the finite set of strings a membership test against `node` admits: a literal tuple / list / set / dict of string constants
+        (keys for a dict), in place or as a module-level name (frozenset(...) / set(...) / tuple(...) of such a literal too)"""
+        if isinstance(node, ast.Name):
+            g = self.m.globals.get(node.id) if node.id not in {a.arg for a in self.fn.args.args} else None
+            return self.string_members(g) if g is not None else None
+        if isinstance(node, ast.Call) and isinstance(node.func, ast.Name) and node.func.id in ("frozenset", "set", "tuple", "list") and len(node.args) == 1:
+            return self.string_members(node.args[0])
+        if isinstance(node, ast.Dict):
+            elts = node.keys
+        elif isinstance(node, (ast.Tuple, ast.List, ast.Set)):
+            elts = node.elts
+        else:
+            return None
+        if elts and all(isinstance(e, ast.Constant) and isinstance(e.value, str) for e in elts):
+            return frozenset(e.value for e in elts)
+        return None
+
     # ------------------------------------------------------------------ refinement
     def refine(self, test, env, truth):
         if isinstance(test, ast.UnaryOp) and isinstance(test.op, ast.Not):
             return self.refine(test.operand, env, not truth)
+        if isinstance(test, ast.Compare) and len(test.ops) == 1 and isinstance(test.left, ast.Name):
+            op = test.ops[0]
+            # p in TABLE / p not in TABLE with a finite table of strings
+            if isinstance(op, (ast.In, ast.NotIn)) and test.left.id in env:
+                keys = self.string_members(test.comparators[0])
+                if keys is not None and (isinstance(op, ast.In) == truth):
+                    cur = env[test.left.id]
+                    ns = keys if cur.strs is None else (cur.strs & keys)
+                    if not ns:
+                        env["$dead"] = V("dead")
+                    env[test.left.id] = V(cur.atoms, cur.const, None, cur.origin, ns)
+                    return
+            # k is None / k is not None / k == None / k != None after k = TABLE.get(p)
+            gm = self.__dict__.get("getmap", {})
+            if isinstance(op, (ast.Is, ast.IsNot, ast.Eq, ast.NotEq)) and test.left.id in gm and isinstance(test.comparators[0], ast.Constant) \
+                    and test.comparators[0].value is None:
+                p_, keys = gm[test.left.id]
+                is_none = isinstance(op, (ast.Is, ast.Eq)) == truth
+                if not is_none and p_ in env:
+                    cur = env[p_]
+                    ns = keys if cur.strs is None else (cur.strs & keys)
+                    if not ns:
+                        env["$dead"] = V("dead")
+                    env[p_] = V(cur.atoms, cur.const, None, cur.origin, ns)
+                return
         if isinstance(test, ast.Call) and isinstance(test.func, ast.Name) and not test.keywords \
                 and not any(isinstance(a_, ast.Starred) for a_ in test.args) and getattr(self, "_pred_depth", 0) < 3:
             # predicate helper introduced by a refactoring: `def _all_angles(*values): return all(isinstance(v, Angle) for v in values)`
